@@ -179,6 +179,49 @@ impl C12 {
     }
 }
 
+/// The longest route from `start` that visits each funded pool at most once (depth-first over pools
+/// in identifier order, bounded); derived from the observed state only, so replay rebuilds it.
+fn longest_simple_route(pre: &Obs, start: &str) -> Vec<SwapOperation> {
+    let mut pools: Vec<(&str, Vec<&str>)> = pre
+        .pools
+        .iter()
+        .filter(|p| !p.total_share.amount.is_zero() && p.pool_info.assets.iter().all(|a| !a.amount.is_zero()))
+        .map(|p| (p.pool_info.pool_identifier.as_str(), p.pool_info.asset_denoms.iter().map(|d| d.as_str()).collect()))
+        .collect();
+    pools.sort();
+    pools.truncate(10);
+    fn dfs<'a>(pools: &[(&'a str, Vec<&'a str>)], cur: &'a str, used: &mut Vec<bool>, path: &mut Vec<(&'a str, &'a str, &'a str)>, best: &mut Vec<(&'a str, &'a str, &'a str)>, budget: &mut u32) {
+        if path.len() > best.len() {
+            *best = path.clone();
+        }
+        if path.len() >= 8 || *budget == 0 {
+            return;
+        }
+        for i in 0..pools.len() {
+            if used[i] || !pools[i].1.contains(&cur) {
+                continue;
+            }
+            for out in pools[i].1.iter().filter(|d| **d != cur) {
+                if *budget == 0 {
+                    return;
+                }
+                *budget -= 1;
+                used[i] = true;
+                path.push((pools[i].0, cur, out));
+                dfs(pools, out, used, path, best, budget);
+                path.pop();
+                used[i] = false;
+            }
+        }
+    }
+    let mut used = vec![false; pools.len()];
+    let (mut path, mut best, mut budget) = (vec![], vec![], 4000u32);
+    dfs(&pools, start, &mut used, &mut path, &mut best, &mut budget);
+    best.into_iter()
+        .map(|(id, i, o)| SwapOperation::MantraSwap { token_in_denom: i.to_string(), token_out_denom: o.to_string(), pool_identifier: id.to_string() })
+        .collect()
+}
+
 impl Monitor for C12 {
     fn pre(&mut self, c: &mut SimCore, step: &Step, pre: &Obs) -> MResult {
         let (sender, msg, funds) = match &step.op {
@@ -229,6 +272,14 @@ impl Monitor for C12 {
                     return Ok(());
                 }
                 self.route(c, sender, &coin(*oa, od.clone()), operations)?;
+                // and the longest simple route the current pools allow from the offered denom
+                let long = longest_simple_route(pre, od);
+                if long.len() > operations.len().max(2) {
+                    c.stats.bump(if long.len() >= 5 { "probe.c12.long_route_5_plus_hops" } else { "probe.c12.long_route_3_4_hops" });
+                    // small offers survive many hops: also a thousandth of the offer
+                    self.route(c, sender, &coin(*oa, od.clone()), &long)?;
+                    self.route(c, sender, &coin((*oa / 1000).max(1000), od.clone()), &long)?;
+                }
             }
             _ => {}
         }
